@@ -20,13 +20,14 @@ ENCODED = ["twisted.internet.task:Cooperator._tick", "twisted.internet.task:Coop
            "twisted.internet.task:CooperativeTask.stop", "twisted.internet.task:CooperativeTask._completeWith",
            "twisted.internet.task:CooperativeTask._checkFinish",
            "twisted.internet.task:CooperativeTask._oneWorkUnit"]
-BOUNDS = {"quick": {"n": 2, "slen": 3, "hist": 4, "n3": 3, "hist3": 4},
-          "thorough": {"n": 2, "slen": 3, "hist": 5, "n3": 3, "hist3": 5}}
+BOUNDS = {"quick": {"n": 2, "slen": 3, "hist": 4, "histb": 3, "n3": 3, "hist3": 4},
+          "thorough": {"n": 2, "slen": 3, "hist": 5, "histb": 4, "n3": 3, "hist3": 5}}
 B = {}
 BOUNDS_TEXT = ("Cooperator(started=True) with a list scheduler and a termination predicate that ends the tick after "
                "one work unit; n tasks (history: n=2 with <= hist operations, history3: n3=3 with <= hist3 "
                "operations) all created up front (the last one through coiterate(), the others through cooperate()), iterator scripts of slen symbolic steps {0 yield value, 1 yield "
-               "unfired Deferred, 2 raise, any other integer stop} then StopIteration; the yielded Deferreds of a run "
+               "unfired Deferred, 2 raise, any other integer stop} then StopIteration (history_base: n=2, <= histb "
+               "operations, step 2 raises a BaseException that is not an Exception, plain Deferreds); the yielded Deferreds of a run "
                "are symbolically all plain Deferred / instances of a trivial Deferred subclass / "
                "DeferredList([d], fireOnOneErrback=True, consumeErrors=True) around the Deferred that is fired (the "
                "DeferredList kind only in history, n=2); operations {tick, pause i, resume i, stop i, fire "
@@ -58,6 +59,11 @@ def _fail(msg):
 
 class _Boom(Exception):
     pass
+
+
+class _BaseBoom(BaseException):
+    """raised by iterators in history_base: a BaseException that is not an Exception (like asyncio.CancelledError,
+    SystemExit, GeneratorExit); not related to CrossHair's control exceptions"""
 
 
 class _DFail(Exception):
@@ -92,7 +98,7 @@ def _conc(v, hi):
 _FIN_EXC = {"done": TaskDone, "failed": TaskFailed, "stopped": TaskStopped, "sched": SchedulerStopped}
 
 
-def _run(n, scripts, ops, slen, dkind):
+def _run(n, scripts, ops, slen, dkind, boom=_Boom):
     calls = []                      # delayed calls handed out by the scheduler
 
     def scheduler(f):
@@ -171,7 +177,7 @@ def _run(n, scripts, ops, slen, dkind):
                 fin[i] = "failed"
                 exp_done[i] = "boom"
                 m_remove(i)
-                raise _Boom()
+                raise boom()
             fin[i] = "done"
             exp_done[i] = "iter"
             m_remove(i)
@@ -209,7 +215,7 @@ def _run(n, scripts, ops, slen, dkind):
         if e == "dfail" and dk[0] == 2:
             # a DeferredList(fireOnOneErrback=True) reports the failure wrapped in FirstError
             return r.check(FirstError) is not None and r.value.subFailure.check(_DFail) is not None
-        want = {"boom": _Boom, "dfail": _DFail, "stopped": TaskStopped, "sched": SchedulerStopped}[e]
+        want = {"boom": boom, "dfail": _DFail, "stopped": TaskStopped, "sched": SchedulerStopped}[e]
         return r.check(want) is not None
 
     def state_ok():
@@ -269,7 +275,10 @@ def _run(n, scripts, ops, slen, dkind):
             m_idx[0] += 1
             before = len(nexts)
             pc[0].called = True
-            pc[0].f()
+            try:
+                pc[0].f()
+            except _BaseBoom:
+                return finish(_fail("the tick let the iterator's BaseException escape into the scheduler"))
             # exactly one work unit, on the task the round-robin points at
             if [x[0] for x in nexts[before:]] != [want]:
                 return finish(_fail("tick advanced %r, expected [%d]" % (nexts[before:], want)))
@@ -392,6 +401,18 @@ def history(scripts: List[int], ops: List[int], dkind: int) -> bool:
     return _run(B['n'], scripts, ops, B['slen'], dkind)
 
 
+def history_base(scripts: List[int], ops: List[int]) -> bool:
+    """
+    pre: len(scripts) == B['n'] * B['slen']
+    pre: len(ops) <= B['histb']
+    post: _
+    """
+    # same as history, but script step 2 raises a BaseException that is not an Exception: the tick must not
+    # propagate it, the task fails (whenDone: Failure wrapping it, pause()/stop(): TaskFailed), a next tick is
+    # scheduled and the other tasks keep being advanced
+    return _run(B['n'], scripts, ops, B['slen'], 0, boom=_BaseBoom)
+
+
 def history3(scripts: List[int], ops: List[int], dkind: int) -> bool:
     """
     pre: len(scripts) == B['n3'] * B['slen']
@@ -439,6 +460,9 @@ def _shards(nkey, two_level):
 HARNESSES = [
     H(history, shards=_shards("n", False), timeout={"quick": 120, "thorough": 1500}),
     H(history3, shards=_shards("n3", True), timeout={"quick": 120, "thorough": 1500}),
+    H(history_base, shards=[("len(ops) == 0 or ops[0] != 0",), ("len(ops) >= 1 and ops[0] == 0", "scripts[0] == 2"),
+                            ("len(ops) >= 1 and ops[0] == 0", "scripts[0] != 2")],
+      timeout={"quick": 120, "thorough": 900}),
 ]
 
 VECTORS = {
@@ -450,4 +474,5 @@ VECTORS = {
     "history3": [([0] * 9, [0, 0, 0, 0], 0), ([1, 0, 0, 0, 0, 0, 0, 0, 0], [0, 10, 0, 0], 1),
                  ([0, 0, 0, 0, 0, 0, 0, 0, 0], [0, 1, 0, 0], 0), ([0, 0, 0, 2, 0, 0, 0, 0, 0], [0, 0, 16], 0),
                  ([0, 0, 0, 1, 0, 0, 0, 0, 0], [0, 0, 2, 14], 1), ([1, 0, 0, 0, 0, 0, 0, 0, 0], [0, 13, 0, 0], 1)],
+    "history_base": [([2, 0, 0, 0, 0, 0], [0, 0, 0]), ([0, 0, 0, 2, 0, 0], [0, 0, 1]), ([2, 0, 0, 2, 0, 0], [0, 0, 5])],
 }
